@@ -31,6 +31,15 @@ func assignedIn(info *types.Info, n ast.Node, key string, env *symEnv) bool {
 					found = true
 				}
 			}
+		case *ast.ValueSpec:
+			// a definition with a value assigns too (var _, token, ok = ...)
+			if len(s.Values) > 0 {
+				for _, nm := range s.Names {
+					if env.lvalKey(nm) == key {
+						found = true
+					}
+				}
+			}
 		case *ast.IncDecStmt:
 			if env.lvalKey(s.X) == key {
 				found = true
@@ -589,6 +598,37 @@ func (lc *loopCtx) classify(loop ast.Stmt) loopVerdict {
 			})
 			if calls {
 				return loopVerdict{Form: "LP-while", Undec: true, Detail: fmt.Sprintf("the tested field %s is not stepped in the loop body itself; methods called from the body may step it", exprStr(xe))}
+			}
+		}
+		if id, isLocal := ast.Unparen(xe).(*ast.Ident); isLocal {
+			// a local may be stepped by a function literal that captures it and that the body calls
+			if obj := info.Uses[id]; obj != nil && lc.fd != nil && lc.fd.Body != nil {
+				captured := false
+				ast.Inspect(lc.fd.Body, func(x ast.Node) bool {
+					lit, ok := x.(*ast.FuncLit)
+					if !ok {
+						return true
+					}
+					ast.Inspect(lit.Body, func(y ast.Node) bool {
+						switch a := y.(type) {
+						case *ast.AssignStmt:
+							for _, l := range a.Lhs {
+								if identObj(info, l) == obj {
+									captured = true
+								}
+							}
+						case *ast.IncDecStmt:
+							if identObj(info, a.X) == obj {
+								captured = true
+							}
+						}
+						return true
+					})
+					return true
+				})
+				if captured {
+					return loopVerdict{Form: "LP-while", Undec: true, Detail: fmt.Sprintf("the tested variable %s is stepped inside a function literal that captures it; the calls of that literal are not followed", exprStr(xe))}
+				}
 			}
 		}
 		return loopVerdict{Form: "LP-while", Detail: fmt.Sprintf("a path through the body (for example an inner loop that runs zero times) returns to the loop head without stepping %s: the loop does not terminate", exprStr(xe))}
